@@ -581,6 +581,10 @@ func mangle(c context, templateName string) string {
 		// Text at the start of the called template would extend the element name.
 		s += "_unfinished"
 	}
+	if c.attr.ambiguousNameEnd {
+		// Text at the start of the called template may continue the attribute name.
+		s += "_ambiguousNameEnd"
+	}
 	if c.linkRel != "" {
 		// The rel values of a link element select the sanitizer of its href.
 		s += "_rel" + c.linkRel
@@ -612,6 +616,15 @@ func attrValuePrefixClass(c context) string {
 	}
 	if len(c.attr.names) > 0 {
 		attr = c.attr.names[0]
+	}
+	if elem == "link" && attr == "rel" {
+		// The called template may end the rel value; what the value starts with then
+		// selects the sanitizer of a later href.
+		v := asciiToLower([]byte(c.attr.value))
+		if len(v) > 64 {
+			v = "..."
+		}
+		return "_valRel(" + v + ")"
 	}
 	sc, err := sanitizationContextForAttrVal(elem, attr, c.linkRel)
 	switch {
